@@ -4,6 +4,7 @@ import (
 	"fmt"
 	"go/token"
 	"go/types"
+	"strings"
 
 	"golang.org/x/tools/go/ssa"
 )
@@ -247,6 +248,30 @@ func r163(c *Ctx) {
 	}
 	okOff = okOff && nMgr >= 1
 	c.ob(rule, "createCertManager/no-manager-without-TLS", ccm.Pos(), okOff, true, "a service without TLS must have no certificate manager (so handshakes for its names fail)")
+	// a manager handed out is one built by this call for these options (a static key pair loaded now, or the ACME manager
+	// literal below the wildcard test): a manager carried over from elsewhere was built for other options / hosts
+	okFreshMgr := true
+	for _, ret := range normalReturns(ccm) {
+		for _, src := range phiSources(retVal(ret, 0)) {
+			if isNilConst(src) {
+				continue
+			}
+			v := stripConv(src)
+			fresh := false
+			if e, ok := v.(*ssa.Extract); ok && e.Index == 0 {
+				if call, ok := e.Tuple.(*ssa.Call); ok && call.Call.StaticCallee() != nil && call.Call.StaticCallee().Name() == "NewStaticCertManager" {
+					fresh = true
+				}
+			}
+			if a, ok := v.(*ssa.Alloc); ok && a.Parent() == ccm && strings.HasSuffix(typeString(a.Type()), "autocert.Manager") {
+				fresh = true
+			}
+			if !fresh {
+				okFreshMgr = false
+			}
+		}
+	}
+	c.ob(rule, "createCertManager/hands-out-only-managers-built-here", ccm.Pos(), okFreshMgr, true, "a certificate manager must be built for the options at hand (reusing one skips the wildcard refusal and the host whitelist of the new options)")
 	// createCertManager is applied to the service's own options
 	okOwn := false
 	for _, cs := range callsTo(ini, ccm) {
@@ -396,6 +421,9 @@ func r165(c *Ctx) {
 		f := c.field("ServiceOptions", name)
 		n := 0
 		for _, w := range c.writesOfField(f) {
+			if outer(w.fn).Pkg != c.server {
+				continue // the CLI fills in its own copy of the options before sending them (C20's business)
+			}
 			if w.fn != sync {
 				c.ob(rule, "write ServiceOptions."+name+" <- "+fname(outer(w.fn)), w.instr.Pos(), false, false, "TLS flags of an installed service are written only by the inheritance sync")
 				continue
